@@ -76,3 +76,48 @@ func TestRaftSequences(t *testing.T) {
 	}
 	_ = api.PinCid
 }
+
+// TestRaftShardedFixture: the four entries of sharded content written through
+// the real pin path on the Raft-backed peer, next to an unrelated pin; then
+// the unpin of the root. Same reference model.
+func TestRaftShardedFixture(t *testing.T) {
+	sec := R.Sec("raft-sharded-fixture")
+	cfg := config{Min: -1, Max: -1, Raft: true}
+	sec.Bounds["sequence"] = "Pin(a); the sharded fixture (2 shards, cluster-DAG, meta) through the Cluster.Pin RPC like the adder; Unpin(m); Unpin(a)"
+	bubble(t, func(t *testing.T) {
+		r := newRig(t, cfg, true)
+		defer r.stop()
+		step := func(c call) {
+			pre := r.pins()
+			res := r.exec(c)
+			post := r.pins()
+			vs, class, nt := judge(cfg, pre, c, res, post, nil, stateKey(pre) != stateKey(post))
+			R.Eval(sec, cfg.String()+"|"+class, nt)
+			R.Outcome(sec, c.API+":"+errClass(res.Err))
+			R.Transitions(1)
+			if len(vs) > 0 {
+				report(vs, cfg, []string{c.String()}, c, pre, post, res, 0)
+			}
+		}
+		step(call{API: "Pin", Cid: "a"})
+		before := r.pins()
+		r.buildFixture(t)
+		after := index(r.pins())
+		want := []string{"a", "m", "d", "s0", "s1"}
+		ok := len(after) == len(want)
+		for _, l := range want {
+			if after[l] == nil {
+				ok = false
+			}
+		}
+		R.Eval(sec, fmt.Sprintf("fixture-on-raft|entries=%d|ok=%v", len(after), ok), true)
+		if !ok {
+			R.Violation("C04|Pin|raft:sharded-fixture|entries-lost-or-missing", map[string]interface{}{
+				"config": cfg.String(), "pinset_before": canonSet(before), "pinset_after": canonSet(r.pins()),
+				"expected": "the unrelated pin a plus meta, cluster-DAG and two shard entries"})
+			return
+		}
+		step(call{API: "Unpin", Cid: "m"})
+		step(call{API: "Unpin", Cid: "a"})
+	})
+}
